@@ -35,13 +35,14 @@ def make_program(prop: str, seed: int, stream: int, scratch: str,
                  mc_decoys: str = 'random', mc_position: Optional[str] = None,
                  mc_shape: Optional[int] = None, accept=None,
                  ref_externs: Optional[float] = None, twins: bool = False,
-                 mc_enum_family: bool = False, mc_no_outs: bool = False):
+                 mc_enum_family: bool = False, mc_no_outs: bool = False, big: bool = False):
     rng = random.Random(f'{prop}:{seed}:{stream}')
     gen, ent, enc, info = cfggen.gen_shell_case(rng, want_multiclient=want_mc, small=small,
                                                 mc_decoys=mc_decoys, mc_position=mc_position,
                                                 mc_shape=stream if mc_shape is None else mc_shape,
                                                 accept=accept, ref_externs=ref_externs, twins=twins,
-                                                mc_enum_family=mc_enum_family, mc_no_outs=mc_no_outs)
+                                                mc_enum_family=mc_enum_family, mc_no_outs=mc_no_outs,
+                                                big=big)
     work = os.path.join(scratch, f'{prop.lower()}_{stream}')
     prog = cxxlab.ShellProgram(gen, ent, enc, info, work)
     prog.release = (stream // 2) % 2 == 1
@@ -58,6 +59,8 @@ def build_or_report(prog, case, out, flavors) -> bool:
         return False
     key = 'programs_built_as_release' if prog.release else 'programs_built_as_development'
     out['counts'][key] = out['counts'].get(key, 0) + 1
+    if prog.enc.get('big'):
+        out['counts']['programs_of_big_size'] = out['counts'].get('programs_of_big_size', 0) + 1
     for flavor in flavors:
         if not prog.compile(flavor):
             if 'watchdog' in prog.compile_err:
